@@ -656,6 +656,7 @@ func init() {
 		if tier == "quick" {
 			p.BudgetS = 480
 			p.Runs = []Run{{Name: "pairs-small", Check: "C19", Params: wp{Type: "doc", N: 2, Alpha: "small"}, Depth: 2},
+				{Name: "two-replicas-patch-and-merge-d3", Check: "C19", Params: wp{Type: "doc", N: 2, Alpha: "merge"}, Depth: 3},
 				e2run("rest-doc-2c-d4", e2p{Clients: 2, Type: "doc", Modes: []string{"soc"}, Patches: restTargets, Oracles: []string{"log", "converge", "snapshots"}}, 4, 0),
 				schedRun("rest-patch-vs-push-b2", 2, restRace, 0)}
 		} else {
@@ -663,6 +664,7 @@ func init() {
 			p.Runs = []Run{
 				{Name: "pairs-large", Check: "C19", Params: wp{Type: "doc", N: 2, Alpha: "large"}, Depth: 2},
 				{Name: "chains-small", Check: "C19", Params: wp{Type: "doc", N: 2, Alpha: "small"}, Depth: 3, MaxState: 400000},
+				{Name: "two-replicas-patch-and-merge-d5", Check: "C19", Params: wp{Type: "doc", N: 2, Alpha: "merge"}, Depth: 5, MaxState: 400000},
 				e2run("rest-doc-2c-d5", e2p{Clients: 2, Type: "doc", Modes: []string{"soc"}, Patches: restTargets, Oracles: []string{"log", "converge", "snapshots"}}, 5, 300000),
 				e2run("rest-doc-joined-d5", e2p{Clients: 2, Type: "doc", Prefix: "joined", Patches: restTargets, Oracles: []string{"log", "converge", "snapshots"}}, 5, 300000),
 				schedRun("rest-patch-vs-push-b3", 3, restRace, 0),
@@ -825,6 +827,19 @@ func init() {
 		}
 		return p
 	}
+}
+
+// c20TwoSyncs: two goroutines use the same real SDK client (with its datatype manager and the whole server behind it):
+// each issues an operation and then calls Sync(); another client does the same. When a Sync() returns without an
+// error, what its goroutine issued before the call is stored on the server.
+func c20TwoSyncs() e2sched {
+	return e2sched{E2: e2p{Clients: 2, Type: "counter", Prefix: "joined", Tolerant: true},
+		Conc: []pact{
+			{Op: "seq", R: 0, Sub: []pact{{Op: "inc", R: 0, P: 10, T: "k1|"}, {Op: "sync", R: 0, V: "10"}}},
+			{Op: "seq", R: 0, Sub: []pact{{Op: "inc", R: 0, P: 20, T: "k1|"}, {Op: "sync", R: 0, V: "20"}}},
+			{Op: "seq", R: 1, Sub: []pact{{Op: "inc", R: 1, P: 1, T: "k1|"}, {Op: "sync", R: 1}}},
+		},
+		AtEnd: []string{"log", "converge", "applied", "issued", "reference"}}
 }
 
 // c06Background: one caller makes the requests of two clients strictly one after the other; what the server starts
@@ -1021,10 +1036,12 @@ func init() {
 				mks("sync-counter-txfail-quiet-2u-1s-b3", 3, map[string]interface{}{"type": "counter", "users": 2, "syncs": 1, "pending": 1, "txfail": true, "quiet": true}),
 				mks("sync-list-txfail-2u-2s-b2", 2, map[string]interface{}{"type": "list", "users": 2, "syncs": 2, "pending": 1, "txfail": true}),
 				mks("sync-counter-txfail-quiet-2u-1s-stmt-b2", 2, map[string]interface{}{"type": "counter", "users": 2, "syncs": 1, "pending": 1, "txfail": true, "quiet": true, "stmt": true}),
+				schedRun("real-client-two-goroutines-call-then-sync-b2", 2, c20TwoSyncs(), 0),
 			}
 		} else {
 			p.BudgetS = 3400
 			p.Runs = []Run{
+				schedRun("real-client-two-goroutines-call-then-sync-b3", 3, c20TwoSyncs(), 0),
 				mk("counter-2t-b5", 5, map[string]interface{}{"type": "counter", "threads": 2}),
 				mk("counter-3t-remote-pack-b3", 3, map[string]interface{}{"type": "counter", "threads": 3, "remote": true, "packer": true}),
 				mk("list-3t-remote-pack-b3", 3, map[string]interface{}{"type": "list", "threads": 3, "remote": true, "packer": true}),
